@@ -359,7 +359,7 @@ def check_c10(prop, tier):
 
 # ---------------------------------------------------------------------------------------------
 # C14: presentation / loader options never change the result
-VARIANTS = [('-q',), (), ('--mmap', '-q'), ('-v',), ('-v', '-v'), ('--color', 'always'), ('--stats', '-q'), ('-A', 'multiapply', '-q'),
+VARIANTS = [('-q',), (), ('--mmap', '-q'), ('-v',), ('-v', '-v'), ('--color', 'always'), ('--color', 'auto'), ('--color=never', '-v'), ('--stats', '-q'), ('--stats', '--mmap'), ('-A', 'multiapply', '-q'),
             ('--mmap', '-v', '-v', '--stats', '--color', 'always', '-A', 'multiapply')]
 
 
